@@ -13,16 +13,21 @@ KNOBS = {
     "C04": [Knobs(fail_rate=0, undefined_rate=5, max_targets=6), Knobs(fail_rate=0, undefined_rate=0, max_targets=6, slow_deps=True),
             Knobs(fail_rate=4, undefined_rate=5, max_targets=5),
             Knobs(fail_rate=0, undefined_rate=0, max_targets=5, sabotage=True),
-            Knobs(fail_rate=0, undefined_rate=0, max_targets=6, slash=True)],
+            Knobs(fail_rate=0, undefined_rate=0, max_targets=6, slash=True),
+            Knobs(fail_rate=0, undefined_rate=0, max_targets=6, dense=True)],
     "C05": [Knobs(undefined_rate=20, notexec_rate=3, fail_rate=0), Knobs(undefined_rate=10, fail_rate=6, max_targets=6),
             Knobs(undefined_rate=25, fail_rate=0, custom_dirs=True, max_targets=5),
             Knobs(undefined_rate=30, notexec_rate=0, fail_rate=0, max_targets=4),
             Knobs(undefined_rate=10, fail_rate=0, max_targets=5, checkpoint=True),
-            Knobs(undefined_rate=10, fail_rate=0, max_targets=5, slash=True)],
+            Knobs(undefined_rate=10, fail_rate=0, max_targets=5, slash=True),
+            Knobs(undefined_rate=5, fail_rate=0, max_targets=6, force_mode=2, dense=True),
+            Knobs(undefined_rate=5, fail_rate=0, max_targets=6, force_mode=2, slow_deps=False, dense=True)],
     "C06": [Knobs(fail_rate=15, notexec_rate=8, undefined_rate=15, redirect_rate=10), Knobs(delays=True, fail_rate=0, undefined_rate=10),
             Knobs(fail_rate=30, undefined_rate=5, max_targets=6, redirect_rate=15), Knobs(delays=True, fail_rate=10, notexec_rate=5),
             Knobs(fail_rate=0, undefined_rate=0, notexec_rate=0, chmod=True, max_targets=4),
-            Knobs(fail_rate=5, undefined_rate=5, listener=True, max_targets=4)],
+            Knobs(fail_rate=5, undefined_rate=5, listener=True, max_targets=4),
+            Knobs(fail_rate=0, undefined_rate=30, notexec_rate=0, force_fou=True, max_targets=5),
+            Knobs(fail_rate=0, undefined_rate=30, notexec_rate=0, force_fou=False, max_targets=5)],
 }
 
 
@@ -85,7 +90,7 @@ def main():
         if s is not None:
             seeds.append(s)
     rng = scen.Rng(args["seed"])
-    n = (1200 if args["tier"] == "thorough" else 150) * args["budget"]
+    n = (1600 if args["tier"] == "thorough" else 240) * args["budget"]
     seeds += [rng.next() for _ in range(n)]
     scen.run_cases(lambda s: one(prop, s, model, rep), seeds, rep, 12)
     scen.finish(args, rep, t0, model)
